@@ -54,7 +54,7 @@ def bounded(rep, tier):
                        bound=bound, evaluations=n, time_s=time.time() - t0,
                        detail="after every crash the module path held nothing / the previous / the complete new module and a later Template rendered the current source"))
     t1 = time.time()
-    L = 3 if tier == "quick" else 5
+    L = 3 if tier == "quick" else 6
     n1, bad1 = history_sweep(L)
     n2, bad2 = history_sweep(L - 1, writer=True)
     bound = "all histories of length <= %d (and <= %d with a module_writer) over {source newer/older/equal, delete module, foreign magic, construct}, whole-second mtimes" % (L, L - 1)
